@@ -3,6 +3,7 @@ import re
 
 from common import Harness, Inconclusive, REPO, source_lines
 from kani_prop import Attach, run_incrate, replay_incrate
+import cert_prop
 import os
 
 PROP = "C20"
@@ -164,10 +165,15 @@ RULE = "one evaluation = one CBMC property decided SUCCESS in a SUCCESSFUL harne
 
 def run(tier, seed, only):
     text, hs, (l0, l1) = build(tier)
+    note = ["additional native OBSERVATION (not a solver query, not the deciding step): for the universes of the certificate engine's `cache` family the public SolverCache methods (matching / non-matching / sorted candidates of every version set and union, repeated queries, are_dependencies_available_for before and after fetching) are called on the real dev and release builds and compared with the universe: partition as filter_candidates defines it, sort order with the favored candidate first, identical answers without further provider calls, availability = hinted or fetched"]
     return run_incrate(PROP, tier, seed, only, [Attach(SRC, HOST, "verif_c20", text=text)], hs,
-                       ["%s:%d-%d (favored rotation, sliced)" % (HOST, l0, l1)], ASSUMPTIONS, [], RULE, jobs=10)
+                       ["%s:%d-%d (favored rotation, sliced)" % (HOST, l0, l1),
+                        "src/solver/cache.rs: public get_or_cache_* methods and are_dependencies_available_for (executed natively, observation only)"],
+                       ASSUMPTIONS + note, [], RULE, jobs=10, extra=None if only else cert_prop.cert_extra(PROP, tier, seed))
 
 
 def replay(path):
+    if cert_prop.is_cert_replay(path):
+        return cert_prop.replay_cert(PROP, path)
     text, _, _ = build("thorough")
     return replay_incrate(PROP, path, [Attach(SRC, HOST, "verif_c20", text=text)])
